@@ -319,6 +319,12 @@ def svc_oracle(module, data, ans, hist=None, exact=None):
                     # that token's span (expected span = the real lexer's token, tied to Model/Lexer.lean)
                     bad.append(f"hover at {at} on the {ctx} name `{name.decode()}` reports the range {sp} instead of the "
                                f"identifier's span {want}" + (f" (covers {cov!r})" if cov is not None else ""))
+        elif kind == "hoverlit" and syn == 0:      # error-recovered ASTs contain placeholder literals
+            at, litspan = rest.split(":")
+            want = parse_span(litspan)
+            for mod, sp, inside, cov in locs:
+                if sp != want:
+                    bad.append(f"hover at {at} on a literal reports the range {sp} instead of the literal's span {want}")
         elif kind == "fold" and syn == 0:     # sibling/nesting clauses quantify over syntactically valid modules
             spans = sorted(sp for _, sp, _, _ in locs)
             for i in range(len(spans)):
@@ -669,8 +675,8 @@ def check_batch(ctx, kind, texts, label, stats):
                               no_input=True)
 
 
-def load_catalogue():
-    path = os.path.join(common.VERIF, "corpus", PROP, "catalogue.sam")
+def load_catalogue(name="catalogue.sam"):
+    path = os.path.join(common.VERIF, "corpus", PROP, name)
     return open(path, encoding="utf-8").read() if os.path.exists(path) else None
 
 
@@ -702,6 +708,12 @@ def run(ctx):
     check_batch(ctx, "walk", [s for _, s in sources], "repo sources", stats)
     if catalogue and not ctx.violations:
         check_svc_batch(ctx, [("tests.VerifCatalogue", catalogue)], "catalogue", stats, 100000)
+    errfam = load_catalogue("errors.sam")
+    if errfam and not ctx.violations:
+        # deterministic family of declarations WITH diagnostics (unknown members, 17 fields, misplaced `private`,
+        # unresolved names): diagnostic locations, and the name under the cursor on error-recovered nodes
+        check_batch(ctx, "walk", [errfam], "error family", stats)
+        check_svc_batch(ctx, [("tests.VerifErrors", errfam)], "error family", stats, 100000)
 
     n_lex = ctx.scale(3000, 200000)
     n_walk = ctx.scale(1500, 60000)
